@@ -75,6 +75,8 @@ macro_rules! user_array {
 }
 user_array!(Arr100, 100);
 user_array!(Arr384, 384);
+// more elements than a 16 bit index can address
+user_array!(Arr70000, 70000);
 
 fn make<P: Payload>(kind: &str, cap: usize) -> Box<dyn Buf<P>> {
     macro_rules! arr {
@@ -89,6 +91,7 @@ fn make<P: Payload>(kind: &str, cap: usize) -> Box<dyn Buf<P>> {
         "array" => arr!(0, 1, 2, 3, 4, 5, 6, 7, 8, 12, 16),
         "user" => match cap {
             100 => Box::new(ArrayBuf::<P, Arr100<P>>::new()),
+            70000 => Box::new(ArrayBuf::<P, Arr70000<P>>::new()),
             _ => Box::new(ArrayBuf::<P, Arr384<P>>::new()),
         },
         "huge" => Box::new(ArrayBuf::<P, [P; 65536]>::new()),
@@ -148,7 +151,7 @@ impl<P: Payload> RbCore<P> {
             "fixednew" | "growingnew" => 0,
             "arraywc" => if cap_arg == 2 { 2 } else { 3 },
             "array" => if [0, 1, 2, 3, 4, 5, 6, 7, 8, 12, 16].contains(&cap_arg) { cap_arg } else { 64 },
-            "user" => if cap_arg == 100 { 100 } else { 384 },
+            "user" => if cap_arg == 100 || cap_arg == 70000 { cap_arg } else { 384 },
             "huge" => 65536,
             _ => cap_arg,
         };
@@ -298,6 +301,7 @@ impl Driver for RingbufDriver {
         }
         if !cfg!(miri) {
             v.push("buf=huge,cap=65536,payload=val,nobfs=1".to_string());
+            v.push("buf=user,cap=70000,payload=val,nobfs=1".to_string());
         }
         // zero sized elements (collections special-case them)
         for (k, cap) in [("array", 3), ("fixed", 0), ("fixed", 2), ("fixed", 5), ("growing", 0), ("growing", 3), ("fixednew", 0), ("growingnew", 0)] {
